@@ -250,8 +250,33 @@ def transformer_state(rep):
                             where=f'{rel}:{t.lineno} writes through a scope\'s beforelist ' + (f'after permute_beforelist_if_needed() (line {guards[-1].lineno})' if guards else 'WITHOUT first making the beforelist its own: the write lands in the shared (process-wide) beforelist'))
     if not n_w: rep.error('C16.transformer_state: no write through a beforelist found in beartype/claw/_ast (extraction key no longer resolves)')
 
+def loader_details(rep):
+    """hooked runs never execute bytecode the source loader did not validate: the path hook hands importlib the STANDARD loader details with only the
+    source loader replaced - same entries, same ORDER (importlib tries them in order: a sourceless `.pyc` loader placed before the source loader would run
+    a stale legacy `mod.pyc` instead of the transformed `mod.py`).  Run-time contract on the real permuter, exhaustive over every ordering of the
+    standard details with and without an extra entry (bounded in the length of the input only)."""
+    import itertools, importlib.machinery as mach
+    from importlib._bootstrap_external import _get_supported_file_loaders
+    import beartype.claw._importlib._clawimpfilefinder as mod
+    from beartype.claw._importlib._clawimpfileloader import BeartypeSourceFileLoader
+    std = tuple(_get_supported_file_loaders())
+    class ExtraLoader: pass
+    bad = []; cases = 0
+    for extra in ((), ((ExtraLoader, ['.xyz']),)):
+        for perm in itertools.permutations(std + extra):
+            cases += 1
+            try: out = mod._permute_beartype_file_finder_loader_details(tuple(perm))
+            except Exception as e: bad.append((perm, f'raised {type(e).__name__}: {e}')); continue
+            want = tuple((BeartypeSourceFileLoader, ft) if ft == mach.SOURCE_SUFFIXES else (ld, ft) for ld, ft in perm)
+            if tuple(out) != want: bad.append((perm, f'returned {[getattr(l, "__name__", l) for l, _ in out]}, expected {[getattr(l, "__name__", l) for l, _ in want]}'))
+    rep.add('C16.path_hook.loader_details_keep_entries_and_order', 'proved' if not bad else 'refuted', backend='bounded-runtime', bounded=True,
+            where=f'{cases} orderings of the standard loader details (+ an extra entry): ' + ('each returned with only the source loader replaced, order kept' if not bad else f'{len(bad)} differ, e.g. for {[getattr(l, "__name__", l) for l, _ in bad[0][0]]}: {bad[0][1]}'),
+            **({} if not bad else dict(replay=dict(kind='C16', reproduced=True, detail=bad[0][1][:300]),
+               replay_script="sys.path.insert(0, os.environ.get('VERIF_REPO', '/repo'))\nfrom importlib._bootstrap_external import _get_supported_file_loaders\nfrom beartype.claw._importlib._clawimpfilefinder import _permute_beartype_file_finder_loader_details as p\nstd = tuple(_get_supported_file_loaders()); out = p(std)\nprint([l.__name__ for l, _ in std]); print([l.__name__ for l, _ in out])\nsys.exit(1 if [ft for _, ft in out] != [ft for _, ft in std] else 0)\n")))
+    rep.bounded.append(dict(kind='loader details permuter over all orderings of the standard details (exhaustive for inputs of that length; bounded stand-in, NOT counted as proved)', cases=cases, failing=len(bad)))
+
 RUN_KINDS = [('unhooked', ''), ('hooked_pep526_on', ''), ('hooked_pep526_off', ''), ('unhooked', '-B'), ('hooked_pep526_on', '-B'), ('hooked_pep526_off', 'env'),
-             ('rehook_off_then_on', '')]      # ONE process imports the module under one configuration, drops it from sys.modules and imports it again under another
+             ('rehook_off_then_on', ''), ('compile_legacy_pyc', '')]      # ONE process imports the module under one configuration, drops it from sys.modules and imports it again under another
 
 def _history(args):
     """one history of interpreter runs over ONE module and ONE __pycache__; each run's observation is compared with the same run on an empty cache"""
@@ -263,6 +288,7 @@ def _history(args):
         open(os.path.join(td, 'pkgx', 'mod.py'), 'w').write("def twice(s: int) -> int:\n    return s + s\nx: int = 'not an int'\n")
         runpy = os.path.join(td, 'run.py')
         open(runpy, 'w').write(f"import sys\nsys.path.insert(0, {repo!r}); sys.path.insert(0, {td!r})\nkind = sys.argv[1]\n"
+            f"if kind == 'compile_legacy_pyc':\n    import compileall\n    compileall.compile_dir({td!r} + '/pkgx', legacy=True, quiet=2, force=True)\n    print('compiled'); sys.exit(0)\n"
             "if kind == 'rehook_off_then_on':\n    from beartype import BeartypeConf\n    from beartype.claw import beartyping\n    with beartyping(conf=BeartypeConf(claw_is_pep526=False)):\n        try: import pkgx.mod\n        except Exception: pass\n    for n in [n for n in sys.modules if n.startswith('pkgx')]: del sys.modules[n]\n    from beartype.claw import beartype_package\n    beartype_package('pkgx', conf=BeartypeConf(claw_is_pep526=True))\n"
             "elif kind != 'unhooked':\n    from beartype import BeartypeConf\n    from beartype.claw import beartype_package\n    beartype_package('pkgx', conf=BeartypeConf(claw_is_pep526=(kind == 'hooked_pep526_on')))\n"
             "out = []\ntry:\n    import pkgx.mod as m\n    out.append('imported')\n    try: out.append(repr(m.twice('ab')))\n    except Exception as e: out.append(type(e).__name__)\nexcept Exception as e:\n    out.append('import-raises ' + type(e).__name__)\nprint(' '.join(out))\n")
@@ -276,6 +302,8 @@ def _history(args):
             obs.append(go(*RUN_KINDS[i]))
         # reference: the LAST run on an empty cache
         shutil.rmtree(os.path.join(td, 'pkgx', '__pycache__'), ignore_errors=True)
+        for fn_ in os.listdir(os.path.join(td, 'pkgx')):
+            if fn_.endswith('.pyc'): os.unlink(os.path.join(td, 'pkgx', fn_))      # legacy-location bytecode too
         ref = go(*RUN_KINDS[hist[-1]])
         return hist, obs, ref
     finally:
@@ -291,6 +319,10 @@ def history_bounded(rep, tier, seed):
     with mp.Pool(min(16, os.cpu_count() or 4)) as pool:
         res = pool.map(_history, [(h, REPO) for h in hists], chunksize=2)
     bad = [(h, o, r) for h, o, r in res if o[-1] != r]
+    # vacuity guard: the runs really ran (a broken harness script would make every observation the same empty string)
+    allobs = {x for h, o, r in res for x in o + [r]}
+    if '' in allobs or not any('Violation' in x for x in allobs) or not any(x.startswith('imported') for x in allobs):
+        rep.error(f'C16 history: the interpreter runs did not produce the expected observations (harness defect): {sorted(allobs)[:4]}'); return
     for h, o, r in bad[:5]:
         names = [' '.join(x for x in RUN_KINDS[i] if x) for i in h]
         rep.add(f"C16.history.bounded[{' ; '.join(names)}]", 'refuted', backend='bounded-runtime', bounded=True,
@@ -305,6 +337,8 @@ def main(tier, seed):
     rep = report.Report('C16', tier, seed, 'other', f'./check C16 --tier {tier}')
     try:
         deps = run(rep)
+        try: loader_details(rep)
+        except Exception: rep.error('C16 loader_details: ' + traceback.format_exc()[-1500:])
         try: transformer_state(rep)
         except Exception: rep.error('C16 transformer_state: ' + traceback.format_exc()[-1500:])
         try: history_bounded(rep, tier, seed)
